@@ -12,7 +12,10 @@ def run(i):
     p = meta["property"]
     if p not in props.PROPS:
         return i, None, []
-    r = subprocess.run([os.path.join(V, "tools", "mutrun"), "--patch", os.path.join(d, "patch.diff"), "--", p],
+    pf = os.path.join(d, "patch.head.diff")   # same change re-expressed on today's /repo when a later fix touched the site
+    if not os.path.exists(pf):
+        pf = os.path.join(d, "patch.diff")
+    r = subprocess.run([os.path.join(V, "tools", "mutrun"), "--patch", pf, "--", p],
                        stdout=subprocess.PIPE, stderr=subprocess.STDOUT, text=True)
     keys = re.findall(r"^\s+key=(\S.*)$", r.stdout, re.M)
     broken = "BROKEN" in r.stdout
